@@ -125,3 +125,28 @@ func C02RootLatched(t *c02tree, toks []int, st *c02stack) {
 		}
 	}
 }
+
+// LOSTWRITE control (C04).
+type c04kv struct {
+	k string
+	v int
+}
+
+func C04LostWrite(b []c04kv, k string, v int) {
+	for _, kv := range b {
+		if kv.k == k {
+			kv.v = v
+			return
+		}
+	}
+}
+
+func C04KeptWrite(b []c04kv, k string, v int) (out []c04kv) {
+	for _, kv := range b {
+		if kv.k == k {
+			kv.v = v
+		}
+		out = append(out, kv)
+	}
+	return
+}
